@@ -16,6 +16,7 @@ mod configx;
 mod unusable;
 mod registry;
 pub mod parsex;
+mod actionx;
 
 use std::collections::HashMap;
 
@@ -74,6 +75,7 @@ fn main() {
         "faultdiag" => unusable::run_faultdiag(&args),
         "registry" => registry::run(&args),
         "parse" => parsex::run(&args),
+        "action" => actionx::run(&args),
         other => {
             eprintln!("unknown stream {other}");
             std::process::exit(2);
